@@ -85,10 +85,15 @@ type simReader struct {
 	calls    int
 	first    bool
 	stats    map[string]int
+	nest     func() // called from inside one Read: the peer itself uses the package meanwhile
+	nestAt   int
 }
 
 func (s *simReader) Read(p []byte) (int, error) {
 	s.calls++
+	if s.nest != nil && s.calls == s.nestAt {
+		s.nest()
+	}
 	if len(p) == 0 {
 		return 0, nil
 	}
@@ -158,10 +163,15 @@ type simWriter struct {
 	failAt int // -1: never; otherwise only failAt bytes are accepted in total
 	stats  map[string]int
 	calls  int
+	nest   func()
+	nestAt int
 }
 
 func (w *simWriter) Write(p []byte) (int, error) {
 	w.calls++
+	if w.nest != nil && w.calls == w.nestAt {
+		w.nest()
+	}
 	if w.failAt >= 0 && w.buf.Len()+len(p) > w.failAt {
 		n := w.failAt - w.buf.Len()
 		if n < 0 {
@@ -229,6 +239,10 @@ func gen(r *sim.Rng, tier string) *sim.Case {
 		p["which"] = r.N(2)    // 0: reader fails, 1: writer fails
 		p["at"] = r.N(1 << 16) // position, reduced modulo the relevant length (+1)
 		p["fdata"] = r.N(2)
+	case 2:
+		if r.Pct(12) {
+			p["nest"] = 1 + r.N(11) // bit0: from the reader, bit1: from the writer, rest: at which call
+		}
 	case 8:
 		p["api"] = r.N(3)
 		p["smut"] = r.N(3)
@@ -247,14 +261,15 @@ func gen(r *sim.Rng, tier string) *sim.Case {
 }
 
 type world struct {
-	c      *sim.Case
-	out    *sim.WorkerOut
-	dg     *engc.Digest
-	r      *sim.Rng
-	plain  []byte
-	secret []byte
-	aad    []byte
-	stats  map[string]int
+	c       *sim.Case
+	out     *sim.WorkerOut
+	dg      *engc.Digest
+	r       *sim.Rng
+	plain   []byte
+	secret  []byte
+	nestErr string
+	aad     []byte
+	stats   map[string]int
 }
 
 func viol(class, site, format string, a ...any) *sim.Violation {
@@ -541,11 +556,47 @@ func (w *world) gcmRoundtrip() *sim.Violation {
 	return nil
 }
 
+// nested: while a stream call is in progress, its reader or writer uses the package for
+// something else (another secret, another message).  Calls share nothing, so neither may
+// notice the other (package-level scratch buffers, cached keys or cipher states would).
+func (w *world) nested() func() {
+	return func() {
+		n := len(scrand.Trace)
+		defer func() { scrand.Trace = scrand.Trace[:n] }()
+		w.stats["nested_call_from_peer"]++
+		sec, msg, aad := []byte("the peer's own secret"), []byte("a message of the peer, longer than one block"), []byte("peer")
+		if ct, err := cryptz.GCMEncrypt(msg, sec, aad); err == nil {
+			if pt, err := cryptz.GCMDecrypt(ct, sec, aad); (err != nil || !bytes.Equal(pt, msg)) && w.nestErr == "" {
+				w.nestErr = fmt.Sprintf("a GCM round trip made by the peer from inside a stream call failed: %v", err)
+			}
+		}
+		if ct, err := cryptz.Encrypt(msg, sec); err == nil {
+			if pt, err := cryptz.Decrypt(ct, sec); (err != nil || !bytes.Equal(pt, msg)) && w.nestErr == "" {
+				w.nestErr = fmt.Sprintf("a CBC round trip made by the peer from inside a stream call failed: %v", err)
+			}
+		}
+		var a, b bytes.Buffer
+		if err := cryptz.EncryptStreamTo(&a, bytes.NewReader(msg), sec); err == nil {
+			if err := cryptz.DecryptStreamTo(&b, bytes.NewReader(a.Bytes()), sec); (err != nil || !bytes.Equal(b.Bytes(), msg)) && w.nestErr == "" {
+				w.nestErr = fmt.Sprintf("a stream round trip made by the peer from inside a stream call failed: %v", err)
+			}
+		}
+	}
+}
+
 func (w *world) streamRoundtrip() *sim.Violation {
 	p := w.c.Params
 	var mid simWriter
 	mid.failAt, mid.stats = -1, w.stats
 	rd, _ := w.peerReader(w.plain, p["rpol"])
+	if p["nest"] != 0 {
+		if sr, ok := rd.(*simReader); ok && p["nest"]&1 != 0 {
+			sr.nest, sr.nestAt = w.nested(), 1+p["nest"]>>2%3
+		}
+		if p["nest"]&2 != 0 {
+			mid.nest, mid.nestAt = w.nested(), 1+p["nest"]>>2%3
+		}
+	}
 	if err := w.encStream(&mid, rd); err != nil {
 		return viol("roundtrip", "EncryptStreamTo", "EncryptStreamTo failed on a fault-free reader (policy %d): %v", p["rpol"], err)
 	}
@@ -561,11 +612,22 @@ func (w *world) streamRoundtrip() *sim.Violation {
 	var dst simWriter
 	dst.failAt, dst.stats = -1, w.stats
 	rd2, calls2 := w.peerReader(mid.buf.Bytes(), p["rpol2"])
+	if p["nest"] != 0 {
+		if sr, ok := rd2.(*simReader); ok && p["nest"]&1 != 0 {
+			sr.nest, sr.nestAt = w.nested(), 1+p["nest"]>>2%3
+		}
+		if p["nest"]&2 != 0 {
+			dst.nest, dst.nestAt = w.nested(), 1+p["nest"]>>2%3
+		}
+	}
 	if err := w.decStream(&dst, rd2); err != nil {
 		return viol("roundtrip", "DecryptStreamTo", "DecryptStreamTo failed on a fault-free reader that splits the data (policy %d, %d reads): %v", p["rpol2"], calls2(), err)
 	}
 	if !bytes.Equal(dst.buf.Bytes(), w.plain) {
 		return viol("roundtrip", "DecryptStreamTo", "DecryptStreamTo(EncryptStreamTo(p)) != p (reader policies %d/%d)", p["rpol"], p["rpol2"])
+	}
+	if w.nestErr != "" {
+		return viol("roundtrip", "EncryptStreamTo", "%s", w.nestErr)
 	}
 	return nil
 }
